@@ -883,11 +883,11 @@ def run_check(prop, tier, base, replay_path=None):
     mode = "text" if prop == "C12" else "jit"
     verd = core.Verdicts(prop)
     if prop == "C12":
-        n_hist = int(os.environ.get("VERIF_RUNS", 0)) or (4000 if thorough else 192)
+        n_hist = int(os.environ.get("VERIF_RUNS", 0)) or (4000 if thorough else 256)
         dnames = text_requests(thorough)
         kinds = ("text", "cli", "jit")
     else:
-        n_hist = int(os.environ.get("VERIF_RUNS", 0)) or (3200 if thorough else 160)
+        n_hist = int(os.environ.get("VERIF_RUNS", 0)) or (3200 if thorough else 224)
         dnames = jit_requests(thorough)
         kinds = ("text", "jit")
     try:
